@@ -3,7 +3,9 @@
 Clause: "Flattening the rebuilt tree again yields the identical leaves and an equal treespec" (and equal hash), for deques
 whose maxlen is None / 0 / small / beyond CPython's small-int cache (equal but not identical int objects), nested at several
 depths and under every option combination; plus defaultdicts whose default_factory objects are equal but not identical.
-Exhaustive over the listed grid."""
+Exhaustive over the listed grid.
+Plus one history: more than 4096 transient tuple subclasses (alternately namedtuple-like and plain) are flattened and freed, so that
+the class-predicate cache overflows and addresses are reused; leaves, node types and the round trip must not depend on it."""
 from ocv.bounded._extra import run_core
 
 CORE = r'''
@@ -30,7 +32,15 @@ def mk(kind, param, depth_wrap):
     return {'bare': inner, 'tuple': (inner, 1), 'list': [0, inner], 'dict': {'a': inner},
             'deque': collections.deque([inner, 2], maxlen=(int(str(param)) + 5 if isinstance(param, int) else None))}[depth_wrap]
 
+def mk_transient(i):
+    """alternately a class the engine must treat as a namedtuple and a plain tuple subclass (same size: addresses get reused)"""
+    new = lambda cls, a: tuple.__new__(cls, (a,))
+    if i % 2 == 0:
+        return type('T%d' % i, (tuple,), {'__new__': new, '_fields': ('a',), '_make': classmethod(lambda cls, it: cls(*it)), '_asdict': lambda self: {}}), True
+    return type('T%d' % i, (tuple,), {'__new__': new, '_fields': ['a'], '_make': classmethod(lambda cls, it: cls(*it)), '_asdict': lambda self: {}}), False
+
 def cases(tier):
+    yield ('history', 4300, 2 if tier == 'quick' else 4)
     for wrap in WRAPS:
         for nil in (False, True):
             for m in MAXLENS:
@@ -47,7 +57,37 @@ def same_tree(x, y):
     if isinstance(x, (tuple, list)): return len(x) == len(y) and all(same_tree(a, b) for a, b in zip(x, y))
     return x is y
 
+def check_history(n, rounds):
+    import gc
+    bad = []
+    for r in range(rounds):
+        batch = []
+        for i in range(n):
+            cls, is_nt = mk_transient(i + r)           # parity shifts every round: a reused address changes its answer
+            payload = object()
+            inst = cls(payload)
+            tree = [inst, payload]
+            leaves, ts = optree.tree_flatten(tree)
+            want = [payload, payload] if is_nt else [inst, payload]
+            if not (len(leaves) == len(want) and all(a is b for a, b in zip(leaves, want))):
+                bad.append(('C01.leaves_and_types_independent_of_class_history', f'round {r}, class #{i} ({"namedtuple-like" if is_nt else "plain tuple subclass"}), after {r * n + i} classes were seen: flatten gives leaves {leaves!r}, expected {want!r}'))
+            else:
+                try:
+                    back = optree.tree_unflatten(ts, leaves)
+                    if type(back[0]) is not cls or tuple(back[0]) != tuple(inst) or back[1] is not payload:
+                        bad.append(('C01.leaves_and_types_independent_of_class_history', f'round {r}, class #{i}: rebuilt {back!r} differs from {tree!r}'))
+                except Exception as e:
+                    bad.append(('C01.leaves_and_types_independent_of_class_history', f'round {r}, class #{i}: unflatten raised {type(e).__name__}: {e}'))
+            if len(bad) > 3:
+                return bad
+            batch.append(cls)
+        del batch, cls, inst, tree
+        gc.collect()
+    return bad
+
 def check(spec):
+    if spec[0] == 'history':
+        return check_history(spec[1], spec[2])
     kind, param, wrap, nil = spec
     t1 = mk(kind, param, wrap)
     bad = []
